@@ -88,8 +88,12 @@ class Env(object):
         self.batches = []
         self.items = []
         self.log = []
+        self.writes = []     # every write attempt of a flush body: batch, item, which run of the body, item already complete
         self.sets = []       # (item id, outcome) for every set_value/set_error call that returned normally
         self.bodies = []     # what a _flush body saw when it started
+        self.reads = []      # re-entrant requests made while a body ran (by the body / by a subscriber)
+        self.stack = []      # batch ids whose _flush body is currently executing (innermost last)
+        self.asking = []     # re-entrant requests currently in progress (innermost last)
         self.active = None   # H flavour registry
         self.bid = {}        # id(obj) -> batch id
         self.name = None     # D flavour registry key
@@ -147,6 +151,52 @@ class Env(object):
     def note_set(self, it, o):
         self.sets.append([self.iid(it), o])
 
+    # ---- re-entrant requests while a body runs
+    def reentrant(self, batch, what, via, target=None):
+        """The body of `batch` (or a subscriber it installed) asks item `target` of the same batch for
+        value()/error(), or calls batch.flush().  Everything is caught and recorded; returns (result, exception)."""
+        k = batch.k
+        rec = {"b": k, "i": self.iid(target) if target is not None else -1, "what": what, "via": via,
+               "item_done": target.is_computed() if target is not None else None,
+               "item_out": peek(target) if target is not None else None,
+               "batch_done": batch.is_computed(), "batch_out": peek(batch), "runs0": batch.runs, "depth": self.stack.count(k),
+               "nlog0": len(self.log)}
+        self.asking.append(rec)
+        exc = None
+        try:
+            if what == "flush":
+                batch.flush()
+                r = "RUnit"
+            elif what == "batch-value":
+                v = batch.value()
+                r = {"RVal": [treeval(v)]} if batch.is_computed() else "RNotComputed"
+            elif what == "batch-error":
+                e = batch.error()
+                r = "RNoError" if e is None else {"RErr": [exn_id(e)]}
+            elif what == "value":
+                v = target.value()
+                r = {"RVal": [treeval(v)]} if target.is_computed() else "RNotComputed"
+            else:
+                e = target.error()
+                r = "RNoError" if e is None else {"RErr": [exn_id(e)]}
+        except BaseException as e:
+            if isinstance(e, (_common.Hang, ValueError)):
+                raise
+            exc = e
+            r = {"RRaise": [exn_id(e)]}
+        finally:
+            self.asking.pop()
+        rec.update({"r": r, "runs1": batch.runs, "item_done_after": target.is_computed() if target is not None else None,
+                    "at": len(self.log)})
+        self.reads.append(rec)
+        if what == "flush":
+            self.log.append({"EReflush": [k, r]})
+        elif what.startswith("batch-"):
+            self.log.append({"EBRead": [k, r]})
+        else:
+            self.log.append({"ERead": [k, rec["i"], r]})
+        return r, exc
+
     def snap(self):
         self.sync_registry()
         bs = []
@@ -189,8 +239,32 @@ class HBatch(BatchBase):
         self.runs += 1
         act = env.active
         env.log.append({"EBody": [self.k, env.bid.get(id(act), -1)]})
+        depth = env.stack.count(self.k)
         env.bodies.append({"b": self.k, "active": env.bid.get(id(act), -1), "active_done": act.is_computed(),
-                           "active_n": len(act.items), "self_done": self.is_computed(), "at": len(env.log)})
+                           "active_n": len(act.items), "self_done": self.is_computed(), "at": len(env.log),
+                           "run": self.runs, "depth": depth, "outer": list(env.stack),
+                           "during": ("%s:%s" % (env.asking[-1]["via"], env.asking[-1]["what"])) if env.asking else None})
+        if depth >= 3:
+            # only reachable when a re-entrant request runs the body again: stop the tower here
+            raise VErr(-99)
+        env.stack.append(self.k)
+        try:
+            self._body()
+        finally:
+            env.stack.pop()
+
+    def _write(self, it, o):
+        """One write of the body to an item (attempt recorded before, success after)."""
+        env = self.env
+        env.writes.append({"b": self.k, "i": env.iid(it), "run": self.runs, "done": it.is_computed()})
+        if "Ok" in o:
+            it.set_value(pyval(o["Ok"][0]))
+        else:
+            it.set_error(VErr(o["Err"][0]))
+        env.note_set(it, o)
+
+    def _body(self):
+        env = self.env
         script = env.scripts[self.k] if self.k < len(env.scripts) else ["ASetAll"]
         for a in script:
             if isinstance(a, str):
@@ -199,20 +273,38 @@ class HBatch(BatchBase):
                 (name, arg), = a.items()
             if name == "ASetAll":
                 for it in self.items:
-                    it.set_value(it._result)
-                    env.note_set(it, {"Ok": [treeval(it._result)]})
+                    self._write(it, {"Ok": [treeval(it._result)]})
             elif name == "ASet":
                 k = arg[0]["n"]
                 if k < len(self.items):
-                    it = self.items[k]
-                    it.set_value(pyval(arg[1]))
-                    env.note_set(it, {"Ok": [arg[1]]})
+                    self._write(self.items[k], {"Ok": [arg[1]]})
             elif name == "ASetErr":
                 k = arg[0]["n"]
                 if k < len(self.items):
+                    self._write(self.items[k], {"Err": [arg[1]]})
+            elif name == "ARead":
+                k = arg[0]["n"]
+                if k < len(self.items):
+                    r, exc = env.reentrant(self, "value" if arg[1] == "KValue" else "error", "body", self.items[k])
+                    if exc is not None and arg[2] != "true":
+                        raise exc
+            elif name == "AReflush":
+                r, exc = env.reentrant(self, "flush", "body")
+                if exc is not None and arg[0] != "true":
+                    raise exc
+            elif name == "AReadBatch":
+                r, exc = env.reentrant(self, "batch-value" if arg[0] == "KValue" else "batch-error", "body")
+                if exc is not None and arg[1] != "true":
+                    raise exc
+            elif name == "ASetRead":
+                k, j = arg[0]["n"], arg[2]["n"]
+                if k < len(self.items):
                     it = self.items[k]
-                    it.set_error(VErr(arg[1]))
-                    env.note_set(it, {"Err": [arg[1]]})
+                    if j < len(self.items):
+                        sib = self.items[j]
+                        what = "value" if arg[3] == "KValue" else "error"
+                        it.on_computed.subscribe(lambda f, sib=sib, what=what: env.reentrant(self, what, "subscriber", sib))
+                    self._write(it, {"Ok": [arg[1]]})
             elif name == "ARaise":
                 raise VErr(arg[0])
             elif name == "ABase":
@@ -362,7 +454,7 @@ def _run_case(c):
     if flavour == "D":
         batching._debug_batch_state.batches.pop(env.name, None)
     return {"out": {"": [res, env.log, bsum, isum, pre["active"]]}, "obs": obs, "sets": env.sets,
-            "bodies": env.bodies, "init": init}
+            "bodies": env.bodies, "init": init, "reads": env.reads, "writes": env.writes}
 
 
 if __name__ == "__main__":
